@@ -33,6 +33,7 @@ type step struct {
 	fd    *fdCtl     // descriptor used (close/read/write, path ops via fd)
 	rd    *readerCtl // frozen reader used
 	op    *opCtl     // upload to release
+	then  string     // refreeze / release-then: what freezes the file again ("fopen" | "upload")
 	pin   bool       // path based mutator relying on the directory entry
 }
 
@@ -45,6 +46,23 @@ func (w *world) apply(s step) {
 	switch s.kind {
 	case "release":
 		w.release(s.op)
+		return
+	case "refreeze":
+		// Back-to-back freezes: close frozen reader A and freeze the file
+		// again before anybody woken by the close can run.
+		s.rd.busy = true
+		closeA := &opCtl{op: "fclose", f: s.f, ref: s.rd.id, reader: s.rd}
+		if s.then == "upload" {
+			w.startChain(closeA, &opCtl{op: "upload", f: s.f, mode: "ok", df: s.df, gated: true})
+		} else {
+			openB := &opCtl{op: "fopen", f: s.f}
+			w.startChain(closeA, openB, &opCtl{op: "fread", f: s.f, off: 0, n: maxSize, from: openB})
+		}
+		return
+	case "release-then":
+		// The same with an upload as the first freeze: it finishes, and
+		// the next upload starts in its goroutine.
+		w.releaseChain(s.op, &opCtl{op: "upload", f: s.f, mode: "ok", df: s.df, gated: true})
 		return
 	case "delay":
 		w.fireDelay()
@@ -90,6 +108,40 @@ func (w *world) believedAlive(f int) bool {
 		}
 	}
 	return false
+}
+
+// mayRefreeze: a new freeze of f would not have to wait for writers (the
+// operation that follows in a chain must not park before it has frozen).
+func (w *world) mayRefreeze(f int) bool {
+	fc := w.files[f]
+	if fc.leaf == nil || fc.links == 0 {
+		return false
+	}
+	if w.delayFired {
+		return true
+	}
+	for _, fd := range fc.fds {
+		if fd.mask != "r" {
+			return false
+		}
+	}
+	for _, o := range w.ops {
+		if o.f == f && (o.op == "open" || o.op == "create") && o.mask != "r" && o.mask != "" {
+			return false
+		}
+	}
+	return true
+}
+
+// parkedMutators counts the pending content-changing calls on f.
+func (w *world) parkedMutators(f int) int {
+	n := 0
+	for _, o := range w.ops {
+		if o.f == f && !o.done.Load() && (o.op == "write" || o.op == "setsize" || o.op == "allocate" || (o.op == "open" && o.trunc)) {
+			n++
+		}
+	}
+	return n
 }
 
 func (w *world) pendingCount(kinds ...string) int {
@@ -259,6 +311,12 @@ func (w *world) enabled(lv level, nfiles int, rng *rand.Rand) []step {
 		if !r.busy {
 			add(step{kind: "fread", f: r.f, off: rng.Intn(3), n: 1 + rng.Intn(maxSize), rd: r})
 			add(step{kind: "fclose", f: r.f, rd: r})
+			if !lv.enum && w.mayRefreeze(r.f) {
+				// twice when a mutator is parked behind the reader
+				for i := 0; i < 1+w.parkedMutators(r.f); i++ {
+					add(step{kind: "refreeze", f: r.f, rd: r, then: []string{"fopen", "upload"}[rng.Intn(2)]})
+				}
+			}
 		}
 	}
 	for id := 1; id < w.nextID; id++ {
@@ -266,6 +324,10 @@ func (w *world) enabled(lv level, nfiles int, rng *rand.Rand) []step {
 			add(step{kind: "release", f: o.f, op: o})
 			if !lv.enum {
 				add(step{kind: "release", f: o.f, op: o})
+				if o.gate() == "B" && o.next == nil && w.mayRefreeze(o.f) && w.parkedMutators(o.f) > 0 {
+					add(step{kind: "release-then", f: o.f, op: o})
+					add(step{kind: "release-then", f: o.f, op: o, df: "md5"})
+				}
 			}
 		}
 	}
@@ -496,6 +558,25 @@ func (s sc) fclose(f int) {
 	}
 }
 
+// refreeze closes the frozen reader of f and freezes f again at once.
+func (s sc) refreeze(f int, then string) *opCtl {
+	r := s.reader(f)
+	if r == nil || !s.w.mayRefreeze(f) {
+		return nil
+	}
+	s.w.apply(step{kind: "refreeze", f: f, rd: r, then: then})
+	return s.w.lastOp
+}
+
+// releaseThen lets upload o finish and starts the next upload at once.
+func (s sc) releaseThen(o *opCtl) *opCtl {
+	if o == nil || o.done.Load() || o.gate() != "B" || !s.w.mayRefreeze(o.f) {
+		return nil
+	}
+	s.w.apply(step{kind: "release-then", f: o.f, op: o})
+	return s.w.lastOp
+}
+
 func (s sc) release(o *opCtl) {
 	if o != nil && !o.done.Load() && o.gate() != "" {
 		s.w.release(o)
@@ -661,6 +742,49 @@ var scenarios = []scenario{
 		s.open(0, "w", true)
 		s.close(0, "w")
 		s.upload(0, "ok", false)
+	}},
+	{"frozen-again-before-the-writer-resumes", 1, func(s sc) {
+		s.create(0, "", 3)
+		s.fopen(0)            // frozen reader A
+		s.setsize(0, 5, true) // parks behind A
+		s.allocate(0, 4, 2, true)
+		s.refreeze(0, "fopen") // A closed, B opened and read before the woken calls run
+		s.fread(0, 0, 6)       // B still shows what it showed
+		s.getattr(0)
+		s.refreeze(0, "fopen") // and once more
+		s.fread(0, 1, 4)
+		s.fclose(0) // now they resume
+		s.getattr(0)
+		s.stat(0)
+	}},
+	{"frozen-again-with-a-writer", 1, func(s sc) {
+		s.create(0, "w", 0)
+		s.write(0, "w", 0, 1, 2, 3)
+		s.fopen(0)                     // waits for the writer
+		s.delay()                      // ... until the delay expires: reader A
+		s.write(0, "w", 0, 3, 3, 3, 3) // parks behind A
+		s.refreeze(0, "fopen")
+		s.fread(0, 0, 6)
+		u := s.refreeze(0, "upload") // B closed, upload freezes at once; at gate A
+		s.release(u)
+		s.release(u) // the writer resumes
+		s.read(0, "w", 0, 6)
+		s.close(0, "w")
+		s.stat(0)
+	}},
+	{"upload-after-upload-with-parked-writer", 1, func(s sc) {
+		s.create(0, "", 4)
+		u1 := s.upload(0, "ok", true) // memoises the digest; at gate A
+		s.release(u1)                 // first half read; at gate B
+		s.setsize(0, 2, true)         // parks behind u1
+		u2 := s.releaseThen(u1)       // u1 finishes, u2 freezes at once (memoised digest); at gate A
+		s.getattr(0)
+		s.release(u2)
+		s.release(u2) // the truncation resumes
+		s.getattr(0)
+		u3 := s.upload(0, "ok", true)
+		s.release(u3)
+		s.release(u3)
 	}},
 	{"digest-function-changes", 1, func(s sc) {
 		s.create(0, "w", 0)
